@@ -97,9 +97,19 @@ def run_family(run, exe, spec, prop, configs, consts_of, wanted_inv, wanted_or, 
             resx = mulib.run_harness_env(exe, ["random", str(nloc), str(seed() + 7), out["init"], REPLAYS], out["env"])
             run.add("evaluations", nloc); run.add("distinct_nontrivial", resx["stats"].get("nontrivial", 0))
             run.cov.setdefault("local_exploration_after_divergence", []).append({"config": name, "runs": nloc, "violations": len(resx["viols"])})
+            hit = False
             for v in resx["viols"]:
                 if v[0] in wanted_or or v[0] == "O-crash":
-                    run.violation("%s|%s|explore %s" % (v[0], v[1], name), v[4], v[5])
+                    run.violation("%s|%s|explore %s" % (v[0], v[1], name), v[4], v[5]); hit = True
+            foreign = sorted({v[0] for v in resx["viols"]} - set(wanted_or) - {"O-crash", "O-harness"})
+            if foreign and not hit:
+                # only another property's oracle fired: switch it off and see what the fault does to this property
+                resy = mulib.run_harness_env(exe, ["random", str(nloc), str(seed() + 8), out["init"], REPLAYS], dict(out["env"], VERIF_IGNORE=",".join(foreign)))
+                run.add("evaluations", nloc)
+                run.cov["local_exploration_after_divergence"].append({"config": name, "runs": nloc, "violations": len(resy["viols"]), "ignoring": foreign})
+                for v in resy["viols"]:
+                    if v[0] in wanted_or or v[0] == "O-crash":
+                        run.violation("%s|%s|explore %s" % (v[0], v[1], name), v[4], v[5])
         try:
             os.unlink(out["sched"])
         except OSError:
@@ -113,7 +123,7 @@ def random_runs(run, exe, spec, configs, runs, prop, wanted_or, harness_env=None
     if harness_env:
         e.update(harness_env)
     for name, conf in configs:
-        res = mulib.run_harness_env(exe, ["random", str(runs), str(seed()), init_line(spec.lower(), conf), REPLAYS], e)
+        res = mulib.run_harness_env(exe, ["random", str(runs), str(seed()), init_line(spec.lower(), conf).replace(" ", " harness=%s " % os.path.basename(exe), 1), REPLAYS], e)
         run.add("evaluations", runs); run.add("distinct_nontrivial", res["stats"].get("nontrivial", 0))
         run.cov.setdefault("random", []).append({"config": name, "runs": runs, "violations": len(res["viols"]), "harness": os.path.basename(exe)})
         for v in res["viols"]:
